@@ -380,6 +380,10 @@ class Runner:
         self.partial = None
         eng.explore(fn, on_path)
         res.paths += eng.n_paths
+        if eng.n_state_restores:
+            res.extra['paths_after_which_library_module_state_was_put_back'] = res.extra.get('paths_after_which_library_module_state_was_put_back', 0) + eng.n_state_restores
+        if eng.n_reordered:
+            res.extra['replayed_decisions_equal_only_up_to_solver_checked_equivalence'] = res.extra.get('replayed_decisions_equal_only_up_to_solver_checked_equivalence', 0) + eng.n_reordered
         res.add_query(self.solver_name, eng.n_solver_calls, eng.solver_time)
         if eng.n_fallback_calls:
             res.add_query('cvc5-binary(fallback after z3 unknown)', eng.n_fallback_calls, 0.0)
@@ -443,8 +447,64 @@ class Runner:
             self.res.extra['witness_values_through_float_abstraction_not_compared'] = \
                 self.res.extra.get('witness_values_through_float_abstraction_not_compared', 0) + 1
         else:
+            if self._history_violation(job_label, m, inputs, expr, setup, symval, want, got):
+                return
             self.res.inconclusive.append('%s: ENCODING MISMATCH on witness %s: %s -> symbolic %s, real %s' % (
                 job_label, inputs, expr, want, got.get('repr') if got['ok'] else 'raises ' + got['exc']))
+
+    def _agrees(self, m, symval, got):
+        if isinstance(symval, tuple) and len(symval) == 2 and symval[0] == 'raises':
+            return (not got['ok']) and got['exc'] == symval[1]
+        want_v = conc(m, symval)
+        return bool(got['ok'] and (got['repr'] == repr(want_v) or _close(got, want_v)))
+
+    def _history_violation(self, job_label, m, inputs, expr, setup, symval, want, got):
+        """The long-lived plain process disagrees with the symbolic result.  If a *fresh* process agrees with the
+        symbolic result, the library's answer depends on the calls made earlier in the process (a cache, a lazily filled
+        table, scratch state): the earlier calls are reduced to a short history and every clause script of the harness is run
+        after that history in a fresh process; one that fails is a reproduced violation (replay = history + clause script)."""
+        if getattr(self, '_history_probes', 0) >= 4:
+            return False
+        self._history_probes = getattr(self, '_history_probes', 0) + 1
+
+        def show(g):
+            return g.get('repr') if g['ok'] else 'raises ' + g['exc']
+        try:
+            g0 = core.fresh_eval(expr, setup)
+            if show(g0) == show(got) or not self._agrees(m, symval, g0):
+                return False            # not history: the encoding (or the harness) is wrong
+            log = list(self.plain.log[:-1])
+            hist = core.minimal_history(log, lambda h: show(core.fresh_eval(expr, setup, h)) == show(got))
+        except core.Inconclusive:
+            return False
+        if hist is None:
+            self.res.inconclusive.append('%s: %s gives %s in a fresh process and %s in the replay process, but replaying the recorded calls does not reproduce it' % (
+                job_label, expr, show(g0), show(got)))
+            return True
+        args_text = ', '.join('%s=%r' % (k, v) for k, v in sorted(inputs.items()))
+        hist_text = '; '.join((h[1] if h[0] == 'eval' else '<script>') + (' [%s]' % h[2].replace('\n', '; ') if h[0] == 'eval' and h[2] else '') for h in hist[-3:])
+        for label, tmpl in self.scripts.items():
+            try:
+                script = tmpl.format(**{k: repr(v) for k, v in inputs.items()})
+            except (KeyError, IndexError):
+                continue
+            code0, _ = core.fresh_script(script)
+            if code0 != 0:
+                continue
+            code, out = core.fresh_script(script, hist)
+            if code == 1:
+                self.res.obligations += 1
+                rec = {'label': label, 'func': self.func, 'kind': label.split(':')[0], 'args_text': args_text + ' after ' + hist_text,
+                       'expected': 'the answer of a fresh process (%s), whatever was called before' % show(g0),
+                       'observed': '%s after %d earlier call(s): %s' % (show(got), len(hist), out.strip()[-200:]),
+                       'script': core.history_prelude(hist) + script, 'model': {k: repr(v) for k, v in inputs.items()},
+                       'job': job_label, 'history': [list(h) for h in hist[-20:]]}
+                km = self.known_matcher(rec) if self.known_matcher is not None else None
+                self.res.records.append(rec)
+                return True
+        self.res.inconclusive.append('%s: %s depends on earlier calls (fresh process: %s; after %s: %s) but no clause script of the harness fails on it' % (
+            job_label, expr, show(g0), hist_text[:200], show(got)))
+        return True
 
     def _counterexample(self, job_label, label, inputs, detail, quiet=False):
         tmpl = self.scripts.get(label) or self.scripts.get(label.split(':')[0])
